@@ -8,6 +8,7 @@ act on the *serialised string* (whitespace, control characters) are applied
 last, by `apply_string_level`.
 """
 import copy
+import unicodedata as _ud
 
 from hypothesis import strategies as st
 
@@ -142,7 +143,9 @@ def t_unescape_safe(s, draw, classes=("unreserved", "nonascii", "space")):
                         j += 1
                     try:
                         txt = bytes(run).decode("utf-8")
-                        if not any(0x80 <= ord(c) <= 0x9F for c in txt):
+                        # characters that NFKC folds into a delimiter (fullwidth @ : / ? #) cannot be written raw in a netloc
+                        # (urlsplit rejects the URL): they are not "characters that may safely appear raw"
+                        if not any(0x80 <= ord(c) <= 0x9F for c in txt) and not any(d in _ud.normalize("NFKC", txt) for d in "/?#@:"):
                             out.append(txt)
                             i = j
                             continue
